@@ -256,7 +256,7 @@ PROPS['C01'] = dict(
     props='props/C01.v',
     models=['Bft', 'BftNet', 'BftCheck'],
     harness='c01',
-    args=dict(quick=['-runs', '30', '-ticks', '60'], escalated=['-runs', '80', '-ticks', '70'], thorough=['-runs', '400', '-ticks', '90']),
+    args=dict(quick=['-runs', '30', '-ticks', '60', '-inject', '300'], escalated=['-runs', '80', '-ticks', '70', '-inject', '900'], thorough=['-runs', '400', '-ticks', '90', '-inject', '4000']),
     fingerprint_groups=['Bft'],
     rule='REAL bft.BFT replicas (harness/bftsim: mock bft.Controller only; real BLS signing, sortition, vote aggregation, certificate checks, '
          'SafeNode, locks, pacemaker, NEW_COMMITTEE reset) under an adversarial network. (scripted) five attack schedules with one Byzantine '
@@ -265,7 +265,10 @@ PROPS['C01'] = dict(
          'honest controls: a fork is reported directly. (random) recorded runs over committees of 3-7 validators with equal and skewed powers, '
          '0 or 1 Byzantine validator (< 1/3 of the power) following one of 8 strategies (silent, withholding, commit-to-one, replaying old '
          'justifications, stale HighQC proposals, forwarding locks with attached blocks, equivocation), message loss / delay / duplication, '
-         'skipped timer ticks, advancing, duplicated and late root-chain notifications; after EVERY action the acting replica\'s observable state '
+         'skipped timer ticks, advancing, duplicated and late root-chain notifications; (state injection) a replica is put into an arbitrary '
+         'model-expressible state (root height, round, phase, lock, block, possibly stale block-hash cache, results, proposer, leader messages '
+         'stored at the previous root height) and receives fabricated messages whose certificates carry REAL aggregate signatures of chosen '
+         'signer subsets (right / wrong round, phase, root height, value, proposer, below +2/3), then its timer fires twice; after EVERY action the acting replica\'s observable state '
          '(root height, round, phase, lock, block, cached block hash, results, proposer, commit, votes sent) is compared with the model (M), and '
          'the commits observed must agree (V); non-trivial: runs in which at least one replica commits',
     modelled='hand-modelled: the replica side of package bft (message admission, proposal store, lock adoption, every phase of HandlePhase, SafeNode, '
